@@ -9,6 +9,7 @@ for d in /tmp/seed/C*-out/mutant-*; do
     *b) prop=${p%b}; id="$prop-w2m$m" ;;
     *c) prop=${p%c}; id="$prop-w3m$m" ;;
     *d) prop=${p%d}; id="$prop-w4m$m" ;;
+    *e) prop=${p%e}; id="$prop-w5m$m" ;;
     *)  prop=$p; id="$p-m$m" ;;
   esac
   [ -f "seeded/$id/meta.json" ] && continue
